@@ -57,6 +57,7 @@ def check(ctx):
     repo = ctx.repo
     P = repo.cls(PARAM, "Parameter")
     C = repo.cls(PARAM, "CompositeParameter")
+    ctx.rule("R16.9", "pickling / copying a parameter leaves the parameter itself unchanged (no write to self or to its live __dict__)", 1)
     ctx.rule("R16.1", "each of the five operators has a forward dunder (self, other, operator.X) and a reflected dunder "
                       "(other, self, operator.X); the table VALID_OPERATORS has exactly these", 11)
     ctx.rule("R16.2", "CompositeParameter.__call__ == operator(left value, right value); t is passed to exactly the time-dependent operands", 8)
@@ -216,6 +217,10 @@ def check(ctx):
     ctx.ob("R16.8", "__call__ hashes and evaluates the same (x, y, z, t)", ok, detail={"hash": call_args, "evaluate": ev_args}, where=fc.fq,
            construct="__call__ cache protocol", loc=loc(fc, fc.node), message=f"hash args {call_args}, evaluate args {ev_args}",
            consequence="the value stored under a key was computed for other arguments")
+    from ..effects import serialisers_pure
+    serialisers_pure(ctx, "R16.9", "after a composite parameter has been pickled once (tdgl.solve pickles the applied vector potential into the "
+                                   "output file) its operands are byte strings: evaluating it again, comparing it or nesting it further fails "
+                                   "or silently concatenates bytes", classes=("Parameter", "CompositeParameter", "Constant"), floor=1)
     ctx.assume("operands' own values are opaque; `operator.X` is Python's operator module")
     ctx.decline("numerical value of an evaluated tree (it is operator.X of the operand values by R16.2)")
 
